@@ -394,12 +394,22 @@ func ruleC01Sections(p *Prog, r *Res) {
 			}
 		}
 		reads := false
-		ast.Inspect(f.Body(), func(x ast.Node) bool {
-			if se, ok := x.(*ast.SelectorExpr); ok && se.Sel.Name == "PacketInfoStart" {
-				reads = true
+		bodies := []ast.Node{f.Body()}
+		for _, hc := range callsIn(f.Body()) {
+			if fn := p.Callee(f.Pkg, hc); fn != nil {
+				if h := p.FnOfObj(fn); h != nil && h.Pkg == f.Pkg && h != f && h.Body() != nil {
+					bodies = append(bodies, h.Body())
+				}
 			}
-			return true
-		})
+		}
+		for _, bd := range bodies {
+			ast.Inspect(bd, func(x ast.Node) bool {
+				if se, ok := x.(*ast.SelectorExpr); ok && se.Sel.Name == "PacketInfoStart" {
+					reads = true
+				}
+				return true
+			})
+		}
 		nC++
 		r.Check(okS && reads, ruleC, "StreamByFirstPacketSource searches sectionStreamsByFirstPacketSource by first packet", p.Pos(f.Node()), "binary search over the matching section, keyed by the first packet's source", "the first-packet lookup searches another section or another key than the writer sorted by")
 	}
@@ -447,10 +457,34 @@ func ruleC01Sections(p *Prog, r *Res) {
 			sort.Strings(unknown)
 			return out, unknown
 		}
-		if len(wp) == 2 && len(rp) > 0 {
+		if len(wp) == 2 {
 			wa, ua := canonSet(deepFieldsVia(info, lit.Body, wp[0]))
 			wb, ub := canonSet(deepFieldsVia(info, lit.Body, wp[1]))
-			rk, ur := canonSet(deepFieldsVia(f.Pkg.TypesInfo, f.Body(), rp...))
+			rfields := deepFieldsVia(f.Pkg.TypesInfo, f.Body(), rp...)
+			// the key may be computed by a method or function of the package that is handed the stream
+			// (firstPacketSource as a closure or as a *Reader method): one level of callees with a *stream parameter
+			for _, hc := range callsIn(f.Body()) {
+				if fn := p.Callee(f.Pkg, hc); fn != nil {
+					if h := p.FnOfObj(fn); h != nil && h.Pkg == f.Pkg && h != f && h.Lit == nil && h.Body() != nil {
+						var hp []types.Object
+						for i := 0; ; i++ {
+							o := paramObj(h, i)
+							if o == nil {
+								break
+							}
+							if types.TypeString(o.Type(), nil) == "*github.com/spq/pkappa2/internal/index.stream" {
+								hp = append(hp, o)
+							}
+						}
+						if len(hp) > 0 {
+							for k := range deepFieldsVia(h.Pkg.TypesInfo, h.Body(), hp...) {
+								rfields[k] = true
+							}
+						}
+					}
+				}
+			}
+			rk, ur := canonSet(rfields)
 			key := "sectionStreamsByFirstPacketSource key components: writer comparator vs StreamByFirstPacketSource"
 			switch {
 			case len(ua)+len(ub)+len(ur) > 0:
